@@ -222,3 +222,79 @@ pub fn clock_clear() {
 pub fn clock_reads() -> u64 {
     sqldatetime::verif_hooks::clock_reads()
 }
+
+/// A text sink that, on every chunk it receives, formats another library value (a fixed time of
+/// day) through both formatting routes before storing the chunk - what a logging writer that
+/// stamps its output would do.
+pub struct ReentrantSink {
+    pub text: String,
+    pub inner_ok: bool,
+    pub chunks: u32,
+}
+
+impl std::fmt::Write for ReentrantSink {
+    fn write_str(&mut self, s: &str) -> std::fmt::Result {
+        self.chunks += 1;
+        self.text.push_str(s);
+        if self.chunks > 2 {
+            return Ok(()); // the first two chunks call back into the library, the rest just store
+        }
+        let t = time(45_296_000_007); // 12:34:56.000007
+        let mut a = String::new();
+        let r1 = t.format("HH24:MI:SS.FF").map(|l| write!(&mut a, "{}", l));
+        let mut b = String::new();
+        let r2 = Formatter::try_new("HH24:MI:SS.FF").map(|f| f.format(t, &mut b));
+        if !matches!(r1, Ok(Ok(()))) || !matches!(r2, Ok(Ok(()))) || a != "12:34:56.000007" || b != a {
+            self.inner_ok = false;
+        }
+        Ok(())
+    }
+}
+
+/// Formats `v` by `pic` into a `ReentrantSink` through both routes. Returns the two outer results
+/// and whether every inner rendering was right.
+pub fn format_reentrant(v: &LibVal, pic: &str) -> Result<(FmtOut, FmtOut, bool), String> {
+    guarded(|| {
+        let mut s1 = ReentrantSink { text: String::new(), inner_ok: true, chunks: 0 };
+        let lazy = |r: Result<(), std::fmt::Error>, s: &ReentrantSink| if r.is_ok() { FmtOut::Text(s.text.clone()) } else { FmtOut::FormatErr };
+        macro_rules! via_lazy {
+            ($x:expr) => {
+                match $x.format(pic) {
+                    Err(e) => FmtOut::BadPicture(e),
+                    Ok(l) => {
+                        let r = write!(&mut s1, "{}", l);
+                        lazy(r, &s1)
+                    }
+                }
+            };
+        }
+        let a = match v {
+            LibVal::Date(x) => via_lazy!(x),
+            LibVal::Time(x) => via_lazy!(x),
+            LibVal::Ts(x) => via_lazy!(x),
+            LibVal::Ora(x) => via_lazy!(x),
+            LibVal::YM(x) => via_lazy!(x),
+            LibVal::DT(x) => via_lazy!(x),
+        };
+        let mut s2 = ReentrantSink { text: String::new(), inner_ok: true, chunks: 0 };
+        let b = match Formatter::try_new(pic) {
+            Err(e) => FmtOut::BadPicture(e),
+            Ok(f) => {
+                let r = match v {
+                    LibVal::Date(x) => f.format(*x, &mut s2),
+                    LibVal::Time(x) => f.format(*x, &mut s2),
+                    LibVal::Ts(x) => f.format(*x, &mut s2),
+                    LibVal::Ora(x) => f.format(*x, &mut s2),
+                    LibVal::YM(x) => f.format(*x, &mut s2),
+                    LibVal::DT(x) => f.format(*x, &mut s2),
+                };
+                if r.is_ok() {
+                    FmtOut::Text(s2.text.clone())
+                } else {
+                    FmtOut::FormatErr
+                }
+            }
+        };
+        (a, b, s1.inner_ok && s2.inner_ok)
+    })
+}
